@@ -368,17 +368,98 @@ Proof.
     exact Ib.
 Qed.
 
-Inductive rop := RW (o : wop) | RReopen.
-Definition rstep (d : db) (o : rop) : db := match o with RW w => wstep d w | RReopen => do_reopen as_is d end.
+(* ---- keyspace deletion: the keyspace object keeps its tree (old handles still read it) and is marked deleted; its name and
+   meta rows go; two seqnos are drawn for the meta tree ---- *)
+Lemma delks_kss d h ks0 : In ks0 (d_kss (fst (do_delks d h))) -> exists ks1, In ks1 (d_kss d) /\ k_tree ks0 = k_tree ks1.
+Proof.
+  unfold do_delks. destruct (alookup h (d_handles d)) as [id|]; [|intros I; exists ks0; auto].
+  destruct (ks_of d id) as [ks|] eqn:K; [|intros I; exists ks0; auto]. cbn [fst].
+  destruct (blookup (k_name ks) (d_map d)); unfold draw_version, set_ks; cbn [fst snd d_kss upd upd_reg];
+    intros I; rewrite in_map_iff in I; destruct I as [x [E Ix]]; destruct (k_id x =? _); subst ks0;
+    try (exists ks; split; [exact (ks_of_in _ _ _ K)|reflexivity]); exists x; auto.
+Qed.
+Lemma delks_seq d h : d_seqno d <= d_seqno (fst (do_delks d h)).
+Proof.
+  unfold do_delks. destruct (alookup h (d_handles d)) as [id|]; [|cbn; lia]. destruct (ks_of d id) as [ks|]; [|cbn; lia]. cbn [fst].
+  destruct (blookup (k_name ks) (d_map d)); unfold draw_version; cbn; lia.
+Qed.
+Lemma delks_J d h : J (fst (do_delks d h)) = J d.
+Proof.
+  unfold do_delks. destruct (alookup h (d_handles d)) as [id|]; [|reflexivity]. destruct (ks_of d id) as [ks|]; [|reflexivity]. cbn [fst].
+  destruct (blookup (k_name ks) (d_map d)); reflexivity.
+Qed.
+Lemma delks_dinv d h : DInv d -> DInv (fst (do_delks d h)).
+Proof.
+  intros H ks0 I. destruct (delks_kss d h ks0 I) as [ks1 [I1 E]]. rewrite E. destruct (H ks1 I1) as [A B].
+  split; [exact A|]. eapply below_mono; [apply delks_seq|exact B].
+Qed.
+Lemma delks_VB d h : VB d -> VB (fst (do_delks d h)).
+Proof. intros H ks0 I. destruct (delks_kss d h ks0 I) as [ks1 [I1 E]]. rewrite E. eapply vb_mono; [apply delks_seq|apply H, I1]. Qed.
+Lemma delks_JS d h : JS d -> JS (fst (do_delks d h)).
+Proof. apply JS_same; [apply delks_J|apply delks_seq]. Qed.
 
-(* every program of writes, maintenance and reopens keeps the write-path invariant (sources ordered by recency, entries
-   below the counter) and the journal invariant *)
+Lemma kfind_set_gen kss ks ks' id : k_id ks' = k_id ks -> kfind kss (k_id ks) = Some ks ->
+  kfind (map (fun x => if k_id x =? k_id ks' then ks' else x) kss) id = if id =? k_id ks then Some ks' else kfind kss id.
+Proof.
+  intros EK. rewrite EK. unfold kfind. induction kss as [|a r IH]; cbn [map find]; [discriminate|].
+  destruct (N.eqb_spec (k_id a) (k_id ks)) as [E|NE].
+  - intros _. rewrite EK. destruct (N.eqb_spec (k_id ks) id) as [E2|NE2].
+    + subst id. rewrite N.eqb_refl. reflexivity.
+    + destruct (N.eqb_spec id (k_id ks)); [lia|]. rewrite E. destruct (N.eqb_spec (k_id ks) id); [lia|]. clear IH.
+      induction r as [|b r IHr]; cbn [map find]; [reflexivity|].
+      destruct (N.eqb_spec (k_id b) (k_id ks)) as [E3|NE3].
+      * rewrite EK. destruct (N.eqb_spec (k_id ks) id); [lia|]. destruct (N.eqb_spec (k_id b) id); [lia|]. exact IHr.
+      * destruct (k_id b =? id); [reflexivity|exact IHr].
+  - intros H. destruct (N.eqb_spec (k_id a) id) as [E2|NE2].
+    + destruct (N.eqb_spec id (k_id ks)); [lia|reflexivity].
+    + apply IH, H.
+Qed.
+
+(* deletion changes no read of any keyspace object (the deleted one is still readable through handles opened before) *)
+Theorem delks_reads I d h : meq (absd I (fst (do_delks d h))) (absd I d).
+Proof.
+  intros i k. unfold do_delks. destruct (alookup h (d_handles d)) as [id|]; [|reflexivity].
+  destruct (ks_of d id) as [ks|] eqn:K; [|reflexivity]. cbn [fst]. destruct (kfind_some _ _ _ K) as [_ Eid].
+  set (ks' := {| k_id := k_id ks; k_name := k_name ks; k_tree := k_tree ks; k_deleted := true; k_filter := k_filter ks |}).
+  assert (G : absk I (map (fun x => if k_id x =? k_id ks' then ks' else x) (d_kss d)) i k = absk I (d_kss d) i k).
+  { unfold absk. rewrite (kfind_set_gen (d_kss d) ks ks' i eq_refl) by (rewrite Eid; exact K).
+    destruct (N.eqb_spec i (k_id ks)) as [E|NE]; [|reflexivity]. subst i. rewrite Eid. assert (K' : kfind (d_kss d) id = Some ks) by exact K.
+    rewrite K'. reflexivity. }
+  unfold absd. destruct (blookup (k_name ks) (d_map d)); unfold draw_version, set_ks; cbn [fst snd d_kss upd upd_reg]; exact G.
+Qed.
+
+(* a deleted keyspace's name is free again, and the keyspace created under it next is a new, empty one *)
+Lemma blookup_bremove n l : blookup n (bremove n l) = None.
+Proof.
+  unfold bremove. induction l as [|[x a] r IH]; cbn [filter blookup fst]; [reflexivity|].
+  destruct (list_eqb x n) eqn:E; cbn [negb]; [exact IH|]. cbn [blookup]. rewrite E. exact IH.
+Qed.
+Theorem delks_then_create_is_empty I d h h2 ks id : alookup h (d_handles d) = Some id -> ks_of d id = Some ks ->
+  blookup (k_name ks) (d_map d) <> None ->
+  let d1 := fst (do_delks d h) in
+  blookup (k_name ks) (d_map d1) = None /\
+  forall k, absd I (fst (do_ks d1 h2 (k_name ks))) (d_next_id d1) k = None.
+Proof.
+  intros A K B d1.
+  assert (E : blookup (k_name ks) (d_map d1) = None).
+  { unfold d1, do_delks. rewrite A, K. cbn [fst]. destruct (blookup (k_name ks) (d_map d)); [|congruence].
+    unfold draw_version. cbn [fst snd d_map upd upd_reg]. apply blookup_bremove. }
+  split; [exact E|]. intros k. rewrite (do_ks_refines I d1 h2 (k_name ks)). cbn [sstep]. rewrite E. unfold sclear. rewrite N.eqb_refl. reflexivity.
+Qed.
+
+Inductive rop := RW (o : wop) | RReopen | RDelKs (h : N).
+Definition rstep (d : db) (o : rop) : db :=
+  match o with RW w => wstep d w | RReopen => do_reopen as_is d | RDelKs h => fst (do_delks d h) end.
+
+(* every program of writes, maintenance, keyspace deletions and reopens keeps the write-path invariant (sources ordered by
+   recency, entries below the counter) and the journal invariant *)
 Theorem rrun_inv ops : forall d, DInv d -> JS d -> DInv (fold_left rstep ops d) /\ JS (fold_left rstep ops d).
 Proof.
   induction ops as [|o r IH]; intros d H1 H2; cbn [fold_left]; [split; assumption|].
-  destruct o as [w|]; cbn [rstep].
+  destruct o as [w| |h]; cbn [rstep].
   - apply IH; [apply (wrun_dinv [w]), H1|apply wstep_JS, H2].
   - destruct (reopen_inv d H2) as [A B]. apply IH; assumption.
+  - apply IH; [apply delks_dinv, H1|apply delks_JS, H2].
 Qed.
 
 Lemma JS_init mode filters : JS (db_init mode filters).
@@ -528,7 +609,7 @@ Qed.
 Lemma rrun_VB ops : forall d, VB d -> VB (fold_left rstep ops d).
 Proof.
   induction ops as [|o r IH]; intros d H; cbn [fold_left]; [exact H|]. apply IH.
-  destruct o as [w|]; cbn [rstep]; [apply wstep_VB, H|apply reopen_VB].
+  destruct o as [w| |h]; cbn [rstep]; [apply wstep_VB, H|apply reopen_VB|apply delks_VB, H].
 Qed.
 
 (* the model's own read functions, across reopen: in every state a program of writes, maintenance and reopens reaches, a point
